@@ -1,7 +1,7 @@
 (* Props/C12.v — Recorded rates follow the winning records and are immutable.
    Only statements, each closed by [exact]; proofs live in Lemmas/. *)
 From Model Require Import Examples.
-From Lemmas Require Import ChainLemmas.
+From Lemmas Require Import ChainLemmas HoldingLemmas.
 Open Scope Z_scope.
 
 (* Rates once recorded for a height never change: whatever a later block contains, every rate
@@ -17,6 +17,33 @@ Theorem C12_rates_only_for_own_height : forall c cm mem b s' mem' k,
   k <> b_height b -> step_block c cm mem b = Done (s', mem') -> rates s' !! k = rates cm !! k.
 Proof. exact step_block_rates_only_own_height. Qed.
 Print Assumptions C12_rates_only_for_own_height.
+
+(* what is recorded from 2.0 on: only OPR winners -> the OPR's rates, only SPR winners -> the SPR's,
+   neither -> no rates; both, per asset: the OPR value if it is inside the tolerance band around the
+   SPR value (1% / 0.1% before the developer-reward activation, then 10%, 25% from 2.0.2), otherwise
+   rate 0 from 2.0.2 on and no rates at all for the block before.  The band predicate is the binary64
+   computation the code performs (Model/Band.v). *)
+Theorem C12_only_opr : forall c h o, o <> [] -> select_rates c h o [] = RSel o.
+Proof. exact select_rates_only_opr. Qed.
+Theorem C12_only_spr : forall c h s, s <> [] -> select_rates c h [] s = RSel s.
+Proof. exact select_rates_only_spr. Qed.
+Theorem C12_no_winners_no_rates : forall c h, select_rates c h [] [] = RErr.
+Proof. exact select_rates_none. Qed.
+Theorem C12_band_rule : forall c h n ov sv,
+  band_filter c h (h <? c_V20DevRewardsHeightActivation c) [(n, ov)] [(n, sv)] =
+    let v0 := h <? c_V20DevRewardsHeightActivation c in
+    let tol := if v0 then (if 100000 <=? sv then tol_01 else tol_1)
+               else (if c_V202EnhanceActivation c <=? h then tol_25 else tol_10) in
+    if in_band tol ov sv then RSel [(n, ov)]
+    else if negb v0 && (c_V202EnhanceActivation c <=? h) then RSel [(n, 0)]
+    else RErr.
+Proof. exact band_one_asset. Qed.
+Print Assumptions C12_band_rule.
+Example C12_band_edges :
+  in_band tol_10 110000 100000 = true /\ in_band tol_10 110001 100000 = false /\
+  in_band tol_25 125000 100000 = true /\ in_band tol_25 125001 100000 = false /\
+  in_band tol_25 75000 100000 = true /\ in_band tol_25 74999 100000 = false.
+Proof. vm_compute. repeat split; reflexivity. Qed.
 
 Example C12_example :
   exists s m, replay ex_cfg genesis empty_cache ex_chain = Done (s, m) /\
